@@ -143,6 +143,26 @@ impl<'a, 'tcx> Cx<'a, 'tcx> {
                 o.push(("uneval_dp", J::s(dp(tcx, u.def))));
                 o.push(("uneval_args", J::Arr(u.args.iter().map(|a| J::s(with_no_trimmed_paths!(format!("{}", a)))).collect())));
                 o.push(("promoted", match u.promoted { Some(p) => J::u(p.as_usize()), None => J::Null }));
+                // promoted constants: export the statements of the promoted body (resolved paths), so that
+                // rules can identify e.g. which enum variant or array a `&CONST` operand refers to
+                if let Some(p) = u.promoted {
+                    if u.def.is_local() {
+                        let pm = tcx.promoted_mir(u.def);
+                        if let Some(pb) = pm.get(p) {
+                            let mut st: Vec<J> = Vec::new();
+                            for bb in pb.basic_blocks.iter() {
+                                for s in bb.statements.iter() {
+                                    if let StatementKind::Assign(b) = &s.kind {
+                                        let txt = with_no_trimmed_paths!(format!("{:?} = {:?}", b.0, b.1));
+                                        let txt = if txt.len() > 400 { txt.chars().take(400).collect::<String>() } else { txt };
+                                        st.push(J::s(txt));
+                                    }
+                                }
+                            }
+                            o.push(("pstmts", J::Arr(st)));
+                        }
+                    }
+                }
             }
             let s = with_no_trimmed_paths!(format!("{}", c.const_));
             let s = if s.len() > 300 { format!("{}…", &s[..s.char_indices().nth(280).map(|x| x.0).unwrap_or(s.len())]) } else { s };
